@@ -270,9 +270,9 @@ CONN_DESYNC = {"header-truncated", "api-key-unknown", "version-unknown", "stray-
 def conn_drive(ctx, d, tier, tag, only=None):
     cp, lp = os.path.join(d, "conns-%s.ndjson" % tag), os.path.join(d, "connlog-%s.ndjson" % tag)
     args = ["connwire", "-tier", tier, "-out", cp, "-log", lp, "-par", "8"] + (["-only", only] if only else [])
-    if os.environ.get("VERIF_C04_PROBE"):
-        # diagnostic only (not part of the check): the versions the Conn hard-codes, against a broker that advertises less
-        args.append("-probe")
+    # the probe scenarios (the versions the Conn hard-codes instead of negotiating, against a broker that advertises less) are part
+    # of the check; what they show on the unchanged tree is known finding K6 (keys end in " site=hardcoded")
+    args.append("-probe")
     p = ctx.run_vh(args, timeout=900)
     if p.returncode != 0:
         raise Inconclusive("vh connwire failed: " + (p.stderr or p.stdout)[-1500:])
@@ -365,6 +365,8 @@ def run_conn_codec(ctx, d, msgs, tier):
                 culprit = b["idx"] - 1
                 k, v = fl[culprit]
         api = apiname.get(k, "key%d" % k)
+        if b["scenario"].startswith("probe-hardcoded"):
+            api += " site=hardcoded"       # call sites that do not negotiate at all (Conn.ReadOffset, Brokers, Controller, group requests, ...)
         g = groups.setdefault((api, v, tuple(clauses)), {"n": 0, "first": None})
         g["n"] += 1
         if g["first"] is None:
@@ -374,7 +376,10 @@ def run_conn_codec(ctx, d, msgs, tier):
     for (api, v, clauses) in sorted(groups):
         g = groups[(api, v, clauses)]
         b, c, culprit = g["first"]
-        key = "C04 conn api=%s v=%d clause=%s" % (api, v, "+".join(clauses))
+        site = ""
+        if api.endswith(" site=hardcoded"):
+            api, site = api[:-len(" site=hardcoded")], " site=hardcoded"
+        key = "C04 conn api=%s v=%d clause=%s%s" % (api, v, "+".join(clauses), site)
         viol_keys.append({"key": key, "frames": g["n"], "first": "%s conn %d frame %d" % (b["scenario"], b["conn"], culprit)})
         if len(viol_keys) > MAXVIOL:
             continue
